@@ -256,6 +256,8 @@ struct MOverlay {
     writes: Vec<(Key, Option<Vec<u8>>)>,
     /// committed state the chain was rooted in when created
     base: Kv,
+    /// model seqn when the root of this overlay's chain was created
+    base_seqn: u32,
     status: OvStatus,
 }
 
@@ -269,6 +271,7 @@ enum OvStatus {
 struct Prepared {
     fin: Option<FinishedSession>,
     base: Kv,
+    base_seqn: u32,
     writes: Vec<(Key, Option<Vec<u8>>)>,
 }
 
@@ -320,6 +323,9 @@ pub struct Exec {
     prepared: BTreeMap<usize, Prepared>,
     pub out: Outcome,
     pub trace: Vec<String>,
+    /// a changeset whose base equals the current state only because intervening commits were
+    /// rolled back (same content, different history) has been accepted
+    pub aba_accepted: bool,
 }
 
 fn viol(fp: &str, msg: String) -> Violation {
@@ -516,8 +522,20 @@ impl Exec {
                 self.last_commit_overlay = None;
                 let occ_before = self.n.as_ref().map(|n| n.hash_table_utilization());
                 self.n = None;
-                let n = open_nomt::<B3>(&self.dir, &newcfg)
-                    .map_err(|e| viol("reopen-err", format!("op {idx}: reopen failed: {e:#}")))?;
+                // The directory lock is released when the last internal reference to the store
+                // goes away, which can lag the drop of the handle (helper threads); that delay is
+                // C20's subject. Here: retry for a bounded time.
+                let t0 = std::time::Instant::now();
+                let n = loop {
+                    match open_nomt::<B3>(&self.dir, &newcfg) {
+                        Ok(n) => break n,
+                        Err(e) if format!("{e:#}").contains("Failed to lock directory") && t0.elapsed().as_secs() < 5 => {
+                            self.out.goals.push("reopen-lock-retry");
+                            std::thread::sleep(std::time::Duration::from_millis(2));
+                        }
+                        Err(e) => return Err(viol("reopen-err", format!("op {idx}: reopen failed: {e:#}"))),
+                    }
+                };
                 self.n = Some(n);
                 if newcfg.rollback != self.cfg.rollback || !newcfg.rollback {
                     // switching rollback off/on forgets history
@@ -594,6 +612,11 @@ impl Exec {
                     .iter()
                     .map(|x| x.as_u64().unwrap() as usize)
                     .collect();
+                if on.iter().any(|i| self.overlays.get(i).map_or(true, |e| e.0.is_none())) {
+                    // refers to an overlay that was never created (its creation was refused) or
+                    // whose handle was consumed: not an executable event
+                    return Ok(());
+                }
                 let verdict = self.chain_valid(&on);
                 let ovs: Vec<&Overlay> = on
                     .iter()
@@ -677,6 +700,10 @@ impl Exec {
                     None => self.model.kv.clone(),
                     Some(l) => self.overlays[l].1.base.clone(),
                 };
+                let base_seqn = match on.last() {
+                    None => self.model.seqn,
+                    Some(l) => self.overlays[l].1.base_seqn,
+                };
                 self.overlays.insert(
                     id,
                     (
@@ -685,6 +712,7 @@ impl Exec {
                             parent: on.first().cloned(),
                             writes,
                             base,
+                            base_seqn,
                             status: OvStatus::Live,
                         },
                     ),
@@ -714,6 +742,16 @@ impl Exec {
                     }
                 }
                 let base_ok = base == self.model.kv;
+                let n_committed_anc = {
+                    let mut cnt = 0u32;
+                    let mut cur = self.overlays[&id].1.parent;
+                    while let Some(p) = cur {
+                        cnt += 1;
+                        cur = self.overlays[&p].1.parent;
+                    }
+                    cnt
+                };
+                let history_intact = self.model.seqn == self.overlays[&id].1.base_seqn + n_committed_anc;
                 let writes = self.overlays[&id].1.writes.clone();
                 let n = self.n.as_ref().unwrap();
                 let res = if name == "ovc" {
@@ -729,6 +767,10 @@ impl Exec {
                                 format!("op {idx}: commit of overlay {id} accepted although parent_committed_last={parent_ok} base_current={base_ok}"),
                             ));
                         }
+                        if !history_intact {
+                            self.aba_accepted = true;
+                            self.out.goals.push("aba-accepted");
+                        }
                         self.model.commit(&writes);
                         self.overlays.get_mut(&id).unwrap().1.status = OvStatus::Committed;
                         self.last_commit_overlay = Some(id);
@@ -742,7 +784,7 @@ impl Exec {
                         ))
                     }
                     Err(e) => {
-                        if parent_ok && base_ok {
+                        if parent_ok && base_ok && history_intact {
                             return Err(viol(
                                 "overlay-commit-refused",
                                 format!("op {idx}: commit of overlay {id} refused although its parent was committed last and its base is current: {e:#}"),
@@ -785,6 +827,7 @@ impl Exec {
                     Prepared {
                         fin: Some(fin),
                         base: self.model.kv.clone(),
+                        base_seqn: self.model.seqn,
                         writes: writes_of(&batch),
                     },
                 );
@@ -795,6 +838,7 @@ impl Exec {
                 let Some(p) = self.prepared.get_mut(&id) else { return Ok(()) };
                 let Some(fin) = p.fin.take() else { return Ok(()) };
                 let base_ok = p.base == self.model.kv;
+                let history_intact = p.base_seqn == self.model.seqn;
                 let writes = p.writes.clone();
                 let n = self.n.as_ref().unwrap();
                 let res = if name == "fc" {
@@ -810,6 +854,10 @@ impl Exec {
                                 format!("op {idx}: changeset {id} committed although its base is no longer current"),
                             ));
                         }
+                        if !history_intact {
+                            self.aba_accepted = true;
+                            self.out.goals.push("aba-accepted");
+                        }
                         self.model.commit(&writes);
                         self.last_commit_overlay = None;
                         self.out.goals.push("prepared-committed");
@@ -822,7 +870,7 @@ impl Exec {
                         ))
                     }
                     Err(e) => {
-                        if base_ok {
+                        if base_ok && history_intact {
                             return Err(viol(
                                 "valid-commit-refused",
                                 format!("op {idx}: changeset {id} refused although its base is current: {e:#}"),
@@ -995,12 +1043,13 @@ impl HistX {
             prepared: BTreeMap::new(),
             out: Outcome::default(),
             trace: vec![],
+            aba_accepted: false,
         }
     }
 
     pub fn run_history(&mut self, prop: &str, case: &Value) -> Outcome {
         let mut ex = self.start(prop, case);
-        let r: Result<(), Violation> = (|| {
+        let r = std::panic::catch_unwind(std::panic::AssertUnwindSafe(|| -> Result<(), Violation> {
             ex.open()?;
             ex.audit("after opening the seed state")?;
             for (i, op) in case["ops"].as_array().unwrap().iter().enumerate() {
@@ -1010,7 +1059,40 @@ impl HistX {
                 ex.step(9999, &json!({"reopen": {}}))?;
             }
             Ok(())
-        })();
+        }));
+        let mut panicked = false;
+        let r = match r {
+            Ok(r) => r,
+            Err(p) => {
+                panicked = true;
+                let m = if let Some(s) = p.downcast_ref::<&str>() {
+                    s.to_string()
+                } else if let Some(s) = p.downcast_ref::<String>() {
+                    s.clone()
+                } else {
+                    "<panic>".to_string()
+                };
+                let loc = crate::panic_location_for(&m);
+                Err(viol(&format!("panic@{loc}"), format!("panic during execution: {m} at {loc}")))
+            }
+        };
+        let r = match r {
+            Err(v) if ex.aba_accepted => Err(viol(
+                "stale-changeset-accepted-after-commit-rollback",
+                format!("a changeset prepared before an intervening commit that was then rolled back (same root again) was accepted, after which: {}", v.msg),
+            )),
+            other => other,
+        };
+        if panicked {
+            // handles may be in an inconsistent state; do not run their destructors
+            let out = Outcome {
+                violation: r.err(),
+                nontrivial: true,
+                ..Default::default()
+            };
+            std::mem::forget(ex);
+            return out;
+        }
         ex.finish(r)
     }
 }
